@@ -9,16 +9,45 @@ Import ListNotations.
 From AnySync Require Export Model.Handshake.
 
 Inductive case :=
-| HS (c : hs_case) (obs_out obs_in : outcome).
+| HS (c : hs_case) (obs_out obs_in : outcome)
+(* a session: consecutive handshakes on the same secureservice objects (same credential checker, same handshake
+   pool); every successful handshake's returned context is kept and its labels (identity, proto version, client
+   version) are read again after each later handshake and at the end of the session *)
+| SESS (l : list sess_obs).
+
+Fixpoint results_eqb (a b : list result) : bool :=
+  match a, b with
+  | [], [] => true
+  | x :: a', y :: b' => result_eqb x y && results_eqb a' b'
+  | _, _ => false
+  end.
+
+Definition sess_obs_eqb (m o : sess_obs) : bool :=
+  outcome_eqb (so_out m) (so_out o) && outcome_eqb (so_in m) (so_in o)
+  && results_eqb (so_later_out m) (so_later_out o) && results_eqb (so_later_in m) (so_later_in o).
+
+Fixpoint sess_eqb (m o : list sess_obs) : bool :=
+  match m, o with
+  | [], [] => true
+  | x :: m', y :: o' => sess_obs_eqb x y && sess_eqb m' o'
+  | _, _ => false
+  end.
+
+(* the model's session for the same cases and the same number of later reads *)
+Definition sess_model (fx : bool) (l : list sess_obs) : list sess_obs :=
+  model_session fx pooled_zero pooled_zero
+    (map (fun s => (so_case s, length (so_later_out s), length (so_later_in s))) l).
 
 Definition model_ok (c : case) : bool :=
   match c with
   | HS k oo oi => let '(mo, mi) := hs_run true k in outcome_eqb mo oo && outcome_eqb mi oi
+  | SESS l => sess_eqb (sess_model true l) l
   end.
 
 Definition spec_ok (c : case) : bool :=
   match c with
   | HS k oo oi => spec_C14 k oo oi
+  | SESS l => spec_C14_session l
   end.
 
 Fixpoint check_from (i : N) (l : list case) : list (N * N) :=
@@ -36,6 +65,7 @@ Definition check_all (base : N) (l : list case) : list (N * N) := check_from bas
 Definition legacy_ok (c : case) : bool :=
   match c with
   | HS k oo oi => let '(mo, mi) := hs_run false k in outcome_eqb mo oo && outcome_eqb mi oi
+  | SESS l => sess_eqb (sess_model false l) l
   end.
 Fixpoint check_legacy_from (i : N) (l : list case) : list N :=
   match l with
